@@ -22,6 +22,8 @@ func checkC16(r *Run) {
 	ruleConsoleLen(r, p)
 	ruleConsoleOnce(r, p)
 	ruleConsoleQuote(r, p)
+	ruleConsoleTimeLocation(r, p)
+	r.Floor("TIMELOC", 2)
 	r.Floor("QUOTE", 4)
 	r.Floor("A22", 3)
 	r.Floor("LEN", 2)
@@ -534,4 +536,60 @@ func ruleConsoleOnce(r *Run, p *Prog) {
 		}
 	}
 	r.Ob("ONCE", FnName(wf)+"/collect", p.Pos(wf.Pos()), okC && nApp > 0, true, tern(okC && nApp > 0, "every key of the event is collected exactly once unless it is excluded or rendered as a part", "the collecting loop drops or duplicates a key without it being excluded or a part name"))
+}
+
+// ruleConsoleTimeLocation (C16 "parts … as configured", TimeLocation): in the default timestamp
+// formatter every time that is formatted for display was first moved to the configured location —
+// the receiver of (time.Time).Format is the result of (time.Time).In(location).
+func ruleConsoleTimeLocation(r *Run, p *Prog) {
+	f := p.Func("", "consoleDefaultFormatTimestamp")
+	if !r.Anchor(f != nil, "TIMELOC", "consoleDefaultFormatTimestamp") {
+		return
+	}
+	var fns []*ssa.Function
+	var collect func(g *ssa.Function)
+	seenFn := map[*ssa.Function]bool{}
+	collect = func(g *ssa.Function) {
+		if seenFn[g] {
+			return
+		}
+		seenFn[g] = true
+		fns = append(fns, g)
+		for _, a := range g.AnonFuncs {
+			collect(a)
+		}
+	}
+	collect(f)
+	for g := range p.exclusiveHelpers(f) {
+		if g != f {
+			collect(g)
+		}
+	}
+	n := 0
+	for _, g := range fns {
+		gv := p.View(g, "", nil)
+		eachInstr(gv, func(b *ssa.BasicBlock, i int, in ssa.Instruction) {
+			c, ok := in.(*ssa.Call)
+			if !ok || !(isCallTo(&c.Call, "(time.Time).Format") || isCallTo(&c.Call, "(time.Time).AppendFormat")) {
+				return
+			}
+			n++
+			okc := false
+			if inCall, ok := c.Call.Args[0].(*ssa.Call); ok && isCallTo(&inCall.Call, "(time.Time).In") && len(inCall.Call.Args) == 2 {
+				// the location is the configured one (parameter / captured variable), not a constant zone
+				loc := inCall.Call.Args[1]
+				if ld, isLd := loc.(*ssa.UnOp); isLd {
+					loc = ld.X
+				}
+				switch loc.(type) {
+				case *ssa.FreeVar, *ssa.Parameter, *ssa.Phi, *ssa.Alloc:
+					okc = true
+				}
+			}
+			r.Ob("TIMELOC", originFnName(gv, c)+"/format-in-location#"+itoa(n), p.Pos(c.Pos()), okc, true, tern(okc, "the time is formatted after In(location)", "a timestamp is formatted without first being moved to the configured TimeLocation: the console shows it in the machine's zone"))
+		})
+	}
+	if n < 2 {
+		r.Fail("TIMELOC", "format-sites", "-", "fewer than 2 timestamp Format calls found in the default timestamp formatter")
+	}
 }
